@@ -41,6 +41,7 @@ struct dpkt {                           /* one data packet of our stream (linear
 	int dropped;                    /* not on the wire at all */
 	int err_off;                    /* >=0: uncorrectable Hamming error at this offset (separator, header or filler byte) */
 	int qkilled;                    /* ignored by a receiver that waits for the next page header after any loss */
+	int err_vis;                    /* the error byte is one that such a receiver examines at all */
 };
 
 struct page { int first, n, ci, hdr_killed; };
@@ -252,14 +253,37 @@ static void classify(void)
 	int p, i, o, g;
 	/* receiver that waits for the next page header after any loss: everything of the page after the
 	   first unusable packet is ignored as well */
+	{
+	/* synced: the receiver is inside the block sequence, i.e. it consumes (and Hamming-checks) the
+	   bytes in front of the block pointer; after a reset it skips them until a packet whose block
+	   pointer names a block start.  pending: a structure header nibble was damaged but the header is
+	   not complete yet - the damage is only noticed with its last nibble, in the next packet, which may
+	   belong to the next page (that page is then the one discarded). */
+	int synced = 0, pending = -1;
 	for (g = 0; g < n_pg; g++) {
 		int dead = pg[g].hdr_killed;
 		for (p = pg[g].first; p < pg[g].first + pg[g].n; p++) {
 			if (pg[g].hdr_killed) dp[p].killed = 1;
-			if (dp[p].killed) dead = 1;
+			if (dp[p].killed) { dead = 1; pending = -1; }
+			if (!dead && pending >= 0) {
+				if (dp[p].kind[0] == K_SH && dp[p].owner[0] == pending) dead = 1;
+				pending = -1;
+			}
 			dp[p].qkilled = dead;
-			if (dp[p].err_off >= 0) dead = 1;
+			dp[p].err_vis = 0;
+			if (!dead && dp[p].err_off >= 0 && (synced || (dp[p].bp != 13 && dp[p].err_off >= 3 * dp[p].bp))) {
+				int e = dp[p].err_off, own = dp[p].owner[e];
+				dp[p].err_vis = 1;
+				if (dp[p].kind[e] == K_SH && own >= 0 && blk[own].sh_split && p == blk[own].first_pkt && p + 1 < n_dp
+				    && dp[p + 1].kind[0] == K_SH && dp[p + 1].owner[0] == own)
+					pending = own;          /* noticed when the header completes */
+				else
+					dead = 1;
+			}
+			if (!dead && dp[p].bp != 13) synced = 1;
 		}
+		if (dead) { synced = 0; pending = -1; }
+	}
 	}
 	for (i = 0; i < n_blk; i++) {
 		struct blk *b = &blk[i];
@@ -273,7 +297,7 @@ static void classify(void)
 					if (dp[p].owner[o] == i) { if (o < lo) lo = o; hi = o; }
 				if (hi >= 0) touch_err = 1;
 				if (dp[p].owner[e] == i) dmg = 1;        /* own separator / header nibble hit */
-				if (hi >= e) qdmg = 1;                    /* any byte at or after the error position */
+				if (hi >= e && dp[p].err_vis) qdmg = 1;   /* any byte at or after an error the receiver notices */
 			}
 		}
 		if (dmg) qdmg = 1;
